@@ -906,12 +906,12 @@ func (c *checker) checkSeq(s *Seq) {
 		} else if p.rule == "sticky" {
 			rep.Count("sticky_errors_checked", 1)
 		} else if s.FE == "workflow" && op.K == "K" && (p.rule == "compiled" || strings.HasPrefix(p.rule, "compiled/")) {
-			// a Workflow reports a modification after a successful Compile through the next Compile: with ErrGraphCompiled
+			// a Workflow reports a modification after a successful Compile through the next Compile. (That it does so
+			// with ErrGraphCompiled is not demanded: the statement asks for an error; a late AddInput on a handle whose
+			// input is already mapped is refused with "already mapped" before the edge is tried. Counted.)
 			rep.Count("workflow_late_modification_reported_by_compile", 1)
-			if !errors.Is(res.Err, compose.ErrGraphCompiled) {
-				rep.Violation("C20/compiled/workflow/compile-error-is-not-ErrGraphCompiled",
-					fmt.Sprintf("Compile after a modification of the compiled Workflow returned %q, not ErrGraphCompiled\n%s", firstLine(res.Err.Error()), text(i)), w)
-				agree = false
+			if errors.Is(res.Err, compose.ErrGraphCompiled) {
+				rep.Count("workflow_late_modification_reported_with_ErrGraphCompiled", 1)
 			}
 		}
 		if !agree {
@@ -1279,6 +1279,8 @@ func TestCheck(t *testing.T) {
 	rep.Require("compile_history_runnables_compared", 50)
 	rep.Require("recompiled_unchanged_builder_same_options", 500)
 	rep.Require("late_compile_of_untouched_builders_succeeded", 200)
+	rep.Require("late_workflow_declarations_followed_by_compile", 500)
+	rep.Require("workflow_late_modification_reported_by_compile", 100)
 	for _, r := range []string{"zero-target-branch", "unknown-interrupt-node", "static-value-invalid"} {
 		rep.Require("rule/"+r, 10)
 	}
